@@ -1,12 +1,11 @@
 import JL.Generated.Fns
+import JL.Lemmas.TieAuto
 import JL.Tie.to_number
 /-! tie: `abstract_minus`, as translated from the crate's current source, is the model's function - for every input -/
 namespace JL.Tie
 open JL
 
 theorem abstract_minus (a b : Json) : Gen.abstract_minus a b = JsOp.abstractMinus a b := by
-  unfold Gen.abstract_minus JsOp.abstractMinus
-  rw [to_number, to_number]
-  cases JsOp.toNumber a <;> cases JsOp.toNumber b <;> simp [rs]
+  tie_close [Gen.abstract_minus, JsOp.abstractMinus, to_number] splitting JsOp.toNumber
 
 end JL.Tie
